@@ -288,7 +288,7 @@ theorem removeGiven_clean {P : Prog} {k : Nat} {g : List String} {R : List Param
 theorem clean_ok {P : Prog} (hW : WfProg P = true) (hC : noPopClash P = true) :
     ∀ (fuel : Nat) (fr : Frame), resolveF fuel P fr ≠ .crash ∧ ∀ R, resolveF fuel P fr = .ok R → CleanR P R := by
   simp only [noPopClash, Bool.and_eq_true] at hC
-  obtain ⟨hC1, hC2⟩ := hC
+  obtain ⟨⟨hC1, hC2⟩, hC3⟩ := hC
   have hplain : ∀ q ∈ P.defs, q.otuple = false := fun q hq => by
     have := List.all_eq_true.1 hC2 q hq
     simp only [Bool.and_eq_true, Bool.not_eq_true'] at this
@@ -316,8 +316,19 @@ theorem clean_ok {P : Prog} (hW : WfProg P = true) (hC : noPopClash P = true) :
         have hpd : p ∈ P.defs := List.mem_flatMap.2 ⟨c, hc, by simp [callableDefs, hp]⟩
         exact ⟨hplain p hpd, p, hpd, sameSig_refl p⟩
       by_cases hv : c.varkw = true
-      · obtain ⟨_, ps, f, hsl, _⟩ := slOK_spec (callableOK_sl hok) hv
+      · obtain ⟨_, ps, f, ns, hsl, _⟩ := slOK_spec (callableOK_sl hok) hv
         obtain ⟨hus, hfw⟩ := splitSL_spec hsl
+        -- `noPopClash` rules out pops nested in argument lists
+        have hns : ns = [] := by
+          cases ns with
+          | nil => rfl
+          | cons x ns' =>
+            have hmem : popInUse x ∈ liveUses c.uses := by rw [hus]; simp
+            obtain ⟨g, hg, hgu⟩ := mem_liveUses hmem
+            have := List.all_eq_true.1 (List.all_eq_true.1 hC3 c hc) g hg
+            simp [hgu, popInUse] at this
+        subst hns
+        simp only [List.map_nil] at hus
         -- facts about the pops of this body
         have hpsuse : ∀ x ∈ ps, ∃ g ∈ c.uses, g.use = .pop x.1 x.2 := by
           intro x hx
@@ -378,8 +389,11 @@ theorem clean_ok {P : Prog} (hW : WfProg P = true) (hC : noPopClash P = true) :
             · exact hgc.2 p (hsub.subset hp)
         unfold resolveCallable
         simp only [hv, Bool.not_true, Bool.false_eq_true, ↓reduceIte]
-        rw [hus, collect_pops, collect_forward hfw]
+        have hcf := collect_forward (rec := resolveF fuel P) (P := P) (wh := wh) hfw [] ⟨List.map popList ps, []⟩
+        simp only [List.map_nil, withNested, List.append_nil] at hcf
+        rw [hus, collect_pops]
         simp only [List.nil_append]
+        rw [hcf]
         cases hsf : subFrame P wh f with
         | none =>
           simp only
